@@ -17,7 +17,13 @@ def run(ctx):
     # duplicated ECH extensions of both kinds, bad ECH types, empty enc ... : the degenerate-but-parseable hellos
     echcommon.run_family(ctx, ["MCEchHello_c04.cfg"], what="C08 degenerate hello", sample=400 if ctx.quick else None,
                          select=lambda c: c["op"] in ("dupEchBefore", "dupEchInnerBefore", "dupEchAfter", "badEchType", "emptyEnc", "outerTypeInInner", "eoeBadLen", "eoeOdd", "eoeRepeated", "eoeAmplify", "eoeTwice", "svOdd", "innerSvOdd", "sniNameType", "sniTwoNames", "innerSniNameType", "innerTypeNo13"))
+    # a held key whose config lists a suite the server's HPKE does not implement, selected by the client: skipped, never a crash
+    echcommon.run_family(ctx, ["MCEchHello_c08k.cfg"], what="C08 unsupported suite")
     echcommon.echconn_slice(ctx, lambda c: any(s in ("ZERO", "ZEROAPP", "SHbad", "CH2no13", "CH2innerType", "CH2noEch") for d, s in c["hist"]), label="degenerate")
+    # (c) real-size record streams (every legal length up to 2^14+256, oversize headers, zero-length records) through Read and
+    # Write with cuts: the recorded traces (panics are events of the trace) are validated against EchPipe.tla
+    import c07
+    c07.pipe_traces(ctx, 300 if ctx.quick else 10000, label="c08pp")
     # stall clause: EchWatch scenarios with HelloAt = -1, the client stalling at every (quick: every 16th) byte offset
     ctx.mc("EchWatch", "MCEchWatch.cfg", timeout=600)
     watch.run_watch(ctx, 1, 16 if ctx.quick else 1, label="stall")
